@@ -167,21 +167,37 @@ Definition sh_done (sh : shrink) : bool := match sh_pos sh with ScanDone => true
 
 (* ---------------------------------------------------------------- schedules *)
 
-(* live dataset, rewrite state, shrinklog (writeAOF appends every updated command while
-   s.shrinking is set, i.e. from the start until the end of the final section) *)
-Record run := mkRun { r_live : st; r_sh : shrink; r_log : list cmd }.
+(* live dataset, rewrite state, s.shrinklog and the flag s.shrinking.  writeAOF appends every updated
+   command to the shrinklog while s.shrinking is set.  The flag and the log have one life cycle
+   (aofshrink()): the entry check `if s.aof == nil || s.shrinking { return }` makes a request that
+   arrives while a rewrite is running a no-op; a request that passes it sets the flag and resets the
+   log; only the deferred epilogue of THAT rewrite (registered after the entry check) clears them. *)
+Record run := mkRun { r_live : st; r_sh : shrink; r_log : list cmd; r_shrinking : bool }.
 
-Inductive ev := W (c : cmd) | Step.
+(* W: a writer command; Step: the next locked section of the running rewrite;
+   Req: another AOFSHRINK request (`go s.aofshrink()`) *)
+Inductive ev := W (c : cmd) | Step | Req.
+
+(* entry of aofshrink() *)
+Definition request (r : run) : run :=
+  if r_shrinking r then r                                   (* s.shrinking: return *)
+  else mkRun (r_live r) shrink_init [] true.                (* s.shrinking = true; s.shrinklog = nil *)
+
+(* the deferred epilogue of the rewrite that passed the entry check, after its final section *)
+Definition end_rewrite (r : run) : run := mkRun (r_live r) (r_sh r) [] false.
 
 Definition do_ev (r : run) (e : ev) : run :=
   match e with
   | W c =>
       let '(s', o) := exec (r_live r) c in
-      mkRun s' (r_sh r) (if logged o then r_log r ++ [c] else r_log r)
-  | Step => mkRun (r_live r) (step (r_live r) (r_sh r)) (r_log r)
+      mkRun s' (r_sh r) (if r_shrinking r && logged o then r_log r ++ [c] else r_log r) (r_shrinking r)
+  | Step => mkRun (r_live r) (step (r_live r) (r_sh r)) (r_log r) (r_shrinking r)
+  | Req => request r
   end.
 
-Definition run_init (s0 : st) : run := mkRun s0 shrink_init [].
+(* a server with no rewrite running, and the state right after the first request *)
+Definition idle (s0 : st) : run := mkRun s0 (mkShrink [] [] true ScanDone []) [] false.
+Definition run_init (s0 : st) : run := request (idle s0).
 Definition run_sched (sched : list ev) (r : run) : run := fold_left do_ev sched r.
 
 (* the final section: the new file is the snapshot followed by the shrinklog *)
@@ -273,4 +289,30 @@ Definition recover_dir (d : dir) : st :=
   match d_live d with
   | Some f => replay f []
   | None => match d_bak d with Some f => replay f [] | None => [] end
+  end.
+
+(* ---------------------------------------------------------------- leftovers: a rewrite on any directory *)
+
+(* f, err := os.Create(name + "-shrink"): creates the file or TRUNCATES a leftover one *)
+Definition create_shrink (d : dir) : dir := mkDir (d_live d) (d_bak d) (Some []).
+
+(* the snapshot is written to the new file (f.Write(aofbuf) ... f.Sync()) before the final section *)
+Definition write_snap (snap : file) (d : dir) : dir :=
+  mkDir (d_live d) (d_bak d) (app_file (d_shrink d) snap).
+
+(* a rewrite that starts on directory d (whatever an earlier, interrupted rewrite left there) and
+   dies at crash point c of its final section / runs to completion *)
+Definition crash_from (d : dir) (fi : final_in) (c : cpoint) : dir :=
+  fold_left (do_op fi) (firstn (cp_index c) final_ops) (write_snap (f_snap fi) (create_shrink d)).
+Definition rewrite_dir (d : dir) (fi : final_in) : dir :=
+  fold_left (do_op fi) final_ops (write_snap (f_snap fi) (create_shrink d)).
+
+(* the directory after the repaired start-up: restoreShrinkBackup, then OpenFile(O_CREATE) *)
+Definition startup_dir (d : dir) : dir :=
+  match d_live d with
+  | Some _ => d
+  | None => match d_bak d with
+            | Some f => mkDir (Some f) None (d_shrink d)
+            | None => mkDir (Some []) (d_bak d) (d_shrink d)
+            end
   end.
